@@ -142,11 +142,15 @@ def run(ctx, widen=False):
     ctx.bump("elements in the numeric domain of the property", len(keys))
     S = [0, 1, 2, 3, -2, 5, ["R", 1, 2], ["R", -3, 2]]
     cases = []
-    per = 24 if ctx.tier == "thorough" else 5
+    per = 24 if ctx.tier == "thorough" else 8
     for k in keys:
         for _ in range(per):
             d = rng.randint(1, 3)
             def sc():
+                # short strings are scalars too (a third of the scalar positions), except for the two elements whose string
+                # overload is not a scalar function (ƈ pairs characters, ∆L returns an iterator object)
+                if k not in ("ƈ", "∆L") and rng.random() < 0.33:
+                    return rng.choice(["a", "xy", "", "7"])
                 return rng.choice(S)
             def lst(dd):
                 return ["l", [lst(dd - 1) if dd > 1 and rng.random() < 0.4 else sc() for _ in range(rng.randint(0, 4))]]
